@@ -47,6 +47,13 @@ fn run_bfs<K: KeyT, V: ValT, const N: usize>(rep: &mut EngineReport, nk: u8, nv:
     rep.cx.merge(cx);
 }
 
+fn run_replay<K: KeyT, V: ValT, const N: usize>(nk: u8, nv: u8, alpha: Alpha, path: &[u32], op: Option<u32>, props: PMask) -> i32 {
+    let sys = MapSys::<K, V, N>::new(nk, nv, alpha);
+    let (code, j) = mc::bfs::replay(&sys, path, op, props);
+    println!("{}", j.dump());
+    code
+}
+
 fn main() {
     let args = Args::from_env();
     silence_panics();
@@ -65,6 +72,15 @@ fn main() {
         "hist" => Alpha::Hist,
         _ => Alpha::Full,
     };
+    if let Some(p) = args.get("replay-path") {
+        let path = mc::bfs::parse_idx_list(p);
+        let op = args.get("replay-op").and_then(|x| x.parse().ok());
+        let n = ns[0];
+        let nk = (n + extra_k).max(1) as u8;
+        let props = args.props();
+        let code = mc::with_n!(n, run_replay::<Kx, Vx>(nk, nv, alpha, &path, op, props));
+        std::process::exit(code);
+    }
     for n in ns {
         let nk = (n + extra_k).max(1) as u8;
         mc::with_n!(n, run_bfs::<Kx, Vx>(&mut rep, nk, nv, alpha, threads, &caps));
